@@ -218,7 +218,7 @@ Proof.
   apply orb_false_elim in Ep. destruct Ep as [Ep1 Ep2]. apply Z.ltb_ge in Ep1. rewrite Z.gtb_ltb in Ep2. apply Z.ltb_ge in Ep2.
   destruct (slash_pools op prop (oa s) (dg s) (sl s)) as [[[o' d'] l'] ev2] eqn:E2.
   destruct (slash_pools_nn _ _ _ _ _ _ _ _ _ (conj Ep1 Ep2) B D E2) as [B' D'].
-  destruct (eh <? height s).
+  destruct (eh <=? height s).
   - pose proof (slash_records_map op eh prop (ur s)) as M.
     destruct (slash_records op eh prop (ur s)) as [u' ev1]. simpl in M. subst u'.
     inversion H; subst; clear H. unfold nn. simpl. repeat split; try assumption.
@@ -246,14 +246,14 @@ Qed.
 Lemma w_height_nn h s : nn s -> nn (w_height h s).
 Proof. unfold nn. simpl. auto. Qed.
 
-Lemma step_nn s o : idx_inv s -> nn s -> nn (fst (step s o)).
+Lemma step_nn s o : idx_inv s -> nn s -> wf_op o = true -> nn (fst (step s o)).
 Proof.
-  intros I N. destruct o; simpl.
+  intros I N Wf. destruct o; simpl.
   - destruct (deposit s staker asset x) as [s'|] eqn:E; simpl; [|exact N]. eapply deposit_nn; eauto.
   - destruct (withdraw s staker asset x) as [s'|] eqn:E; simpl; [|exact N]. eapply withdraw_nn; eauto.
   - destruct (delegate s staker asset operator x) as [s'|] eqn:E; simpl; [|exact N]. eapply delegate_nn; eauto.
   - destruct (undelegate s staker asset operator x nonce tx) as [[s' r]|] eqn:E; simpl; [|exact N].
-    destruct (hook_panics s operator); simpl; [exact N|]. eapply undelegate_nn; eauto.
+    eapply undelegate_nn; eauto.
   - apply genesis_load_nn; assumption.
   - destruct prop as [p|]; simpl; [|exact N].
     destruct (slash s operator eh p) as [s'|] eqn:E; simpl; [|exact N]. eapply slash_nn; eauto.
@@ -261,6 +261,7 @@ Proof.
   - apply hold_dec_nn; assumption.
   - destruct (end_block_idx nn (fun s0 r _ G N0 => process_nn s0 r N0 G) (fun s0 h N0 => w_height_nn h s0 N0) s I N) as (_ & Q & _).
     exact Q.
+  - discriminate.
 Qed.
 
 Lemma run_nn ops : forall s, idx_inv s -> nn s -> hist_ok s ops = true -> nn (run ops s).
